@@ -17,6 +17,7 @@ import GivaroModel.Lemmas.PolyEuclid
 import GivaroModel.Lemmas.PolyMid
 import GivaroModel.Lemmas.PolyMidKara
 import GivaroModel.Lemmas.PadicLemmas
+import GivaroModel.Lemmas.PolyInterp
 
 open Polynomial
 set_option linter.unusedSectionVars false
@@ -622,6 +623,31 @@ example : ∃ (P Q D U V : ℚ[X]), D ∣ P ∧ D ∣ Q ∧ D = P * U + Q * V :=
 example : ∃ (P Q U : ℚ[X]), Q ∣ U * P - 1 := ⟨1, X, 1, by simp⟩
 example : ∃ (P Q G U V L : ℚ[X]), G = P * U + Q * V ∧ L * G = P * Q ∧ G ≠ 0 :=
   ⟨1, 1, 1, 1, 0, 1, by ring, by ring, one_ne_zero⟩
+
+/-! ### interpolation (givinterp.h) -/
+
+/-- `Interpolation<Domain>` as written — `operator()(x, f)` called for `(x_0,f_0), (x_1,f_1), …`: `DD.push_back(f)`,
+    `Pi = X·Pi - x_last·Pi`, the divided-difference loop `DD[j] = (DD[j] - DD[j+1]) / (x_j - x)` on reverse iterators,
+    `inter += DD.front()·Pi` — then `interpolator()`: for **every** number of points and all pairwise distinct abscissae the
+    result takes the value `f_i` at `x_i` for every `i`, and has degree below the number of points (the zero polynomial for no
+    point).  Any field. -/
+theorem interp_exact (pts : List (K × K)) (hd : (pts.map Prod.fst).Nodup) :
+    (∀ p ∈ pts, (toPoly (Givaro.Model.PolyInterp.interpolator pts)).eval p.1 = p.2) ∧
+    (toPoly (Givaro.Model.PolyInterp.interpolator pts)).degree < (pts.length : WithBot ℕ) :=
+  Givaro.Lemmas.PolyInterp.interpolator_spec pts hd
+
+example : ∃ pts : List (ℚ × ℚ), (pts.map Prod.fst).Nodup := ⟨[(0, 1), (1, 2)], by simp⟩
+
+/-- certificate used by the driver for the interpolation classes: values at the points and the degree bound determine the
+    polynomial, so an output accepted by the check *is* the interpolant (hence equal to the model's) -/
+theorem interp_unique (pts : List (K × K)) (hd : (pts.map Prod.fst).Nodup) (F G : K[X])
+    (hF : ∀ p ∈ pts, F.eval p.1 = p.2) (hG : ∀ p ∈ pts, G.eval p.1 = p.2)
+    (dF : F.degree < (pts.length : WithBot ℕ)) (dG : G.degree < (pts.length : WithBot ℕ)) : F = G :=
+  Givaro.Lemmas.PolyInterp.interp_unique pts hd F G hF hG dF dG
+
+example : ∃ (pts : List (ℚ × ℚ)) (F G : ℚ[X]), (pts.map Prod.fst).Nodup ∧ (∀ p ∈ pts, F.eval p.1 = p.2) ∧
+    (∀ p ∈ pts, G.eval p.1 = p.2) ∧ F.degree < (pts.length : WithBot ℕ) ∧ G.degree < (pts.length : WithBot ℕ) :=
+  ⟨[(0, 1)], 1, 1, by simp, by simp, by simp, by simp, by simp⟩
 
 /-! ### p-adic conversion (givpoly1padic.h) -/
 
